@@ -2,6 +2,7 @@ package main
 
 import (
 	"go/token"
+	"strconv"
 	"go/types"
 	"sort"
 	"strings"
@@ -72,6 +73,9 @@ func (a *FnA) Returns() []*ssa.Return {
 	var out []*ssa.Return
 	a.Instrs(func(i ssa.Instruction) {
 		if r, ok := i.(*ssa.Return); ok {
+			if b := r.Block(); b.Comment == "recover" && len(b.Preds) == 0 {
+				return // synthetic recover block of functions with defers
+			}
 			out = append(out, r)
 		}
 	})
@@ -98,7 +102,8 @@ type SendSite struct {
 	Val   ssa.Value
 	InSel bool
 	// for select: index of the state
-	SelIdx int
+	SelIdx  int
+	Wrapper string // non-empty when the send happens inside a gchan helper
 }
 
 func (a *FnA) Sends() []SendSite {
@@ -112,6 +117,12 @@ func (a *FnA) Sends() []SendSite {
 				if st.Dir == types.SendOnly {
 					out = append(out, SendSite{Instr: i, Chan: st.Chan, Val: st.Send, InSel: true, SelIdx: k})
 				}
+			}
+		case *ssa.Call:
+			// the repository's send wrappers: gchan.SendC / SendCLogBlocked / ReqResp(ctx, log, ch, val, ...)
+			_, n := calleeName(&i.Call)
+			if (n == "gchan.SendC" || n == "gchan.SendCLogBlocked" || n == "gchan.ReqResp") && len(i.Call.Args) >= 4 {
+				out = append(out, SendSite{Instr: i, Chan: i.Call.Args[2], Val: i.Call.Args[3], Wrapper: n})
 			}
 		}
 	})
@@ -711,4 +722,117 @@ func CallArg(in ssa.Instruction, i int) ssa.Value {
 		return args[i]
 	}
 	return nil
+}
+
+// CaseInfo is the outcome of one case of a mapping switch.
+type CaseInfo struct {
+	Returns map[string]bool // rendered result shapes returned from the case body
+	Panics  bool
+	Pos     token.Pos
+}
+
+// SwitchCases analyses a switch whose case bodies all leave the function:
+// for every `subject == K` comparison, the results returned (index resultIdx)
+// from the blocks reachable from its "equal" edge; the default entry (key
+// "default") is what is reachable when every comparison fails.
+func (a *FnA) SwitchCases(subject string, resultIdx int) map[string]*CaseInfo {
+	out := map[string]*CaseInfo{}
+	pat := ParsePattern(subject)
+	trueEdges := map[Edge]bool{}
+	type cmp struct {
+		b    *ssa.BasicBlock
+		succ int
+		k    string
+	}
+	var cmps []cmp
+	for _, b := range a.fn.Blocks {
+		if len(b.Instrs) == 0 {
+			continue
+		}
+		ifi, ok := b.Instrs[len(b.Instrs)-1].(*ssa.If)
+		if !ok {
+			continue
+		}
+		bo, ok := ifi.Cond.(*ssa.BinOp)
+		if !ok || (bo.Op != token.EQL && bo.Op != token.NEQ) {
+			continue
+		}
+		var cst *ssa.Const
+		var other ssa.Value
+		if c, ok := bo.Y.(*ssa.Const); ok {
+			cst, other = c, bo.X
+		} else if c, ok := bo.X.(*ssa.Const); ok {
+			cst, other = c, bo.Y
+		} else {
+			continue
+		}
+		if !Unify(pat, a.sh.Of(other), Bind{}) {
+			continue
+		}
+		succ := 0
+		if bo.Op == token.NEQ {
+			succ = 1
+		}
+		trueEdges[Edge{b, succ}] = true
+		cmps = append(cmps, cmp{b, succ, a.sh.constShape(cst).String()})
+	}
+	collect := func(blocks map[*ssa.BasicBlock]bool) *CaseInfo {
+		ci := &CaseInfo{Returns: map[string]bool{}}
+		for b := range blocks {
+			for _, in := range b.Instrs {
+				switch in := in.(type) {
+				case *ssa.Return:
+					if resultIdx < len(in.Results) {
+						ci.Returns[a.sh.Of(in.Results[resultIdx]).String()] = true
+					}
+				case *ssa.Panic:
+					ci.Panics = true
+					ci.Pos = in.Pos()
+				}
+			}
+		}
+		return ci
+	}
+	if len(cmps) == 0 {
+		return out
+	}
+	for _, c := range cmps {
+		ci := collect(reach(c.b.Succs[c.succ], nil))
+		if old, ok := out[c.k]; ok {
+			for k := range ci.Returns {
+				old.Returns[k] = true
+			}
+			old.Panics = old.Panics || ci.Panics
+		} else {
+			out[c.k] = ci
+		}
+	}
+	first := cmps[0].b
+	for _, c := range cmps {
+		if c.b.Dominates(first) {
+			first = c.b
+		}
+	}
+	// default: never take an equal edge; exclude the compare blocks themselves
+	r := reach(first, trueEdges)
+	out["default"] = collect(r)
+	return out
+}
+
+func setKeys(m map[string]bool) []string {
+	var out []string
+	for k := range m {
+		out = append(out, k)
+	}
+	sort.Strings(out)
+	return out
+}
+
+// Ord hands out per-prefix ordinals for obligation keys (call-site ordinal
+// within a function, never a line number).
+type Ord map[string]int
+
+func (o Ord) Next(prefix string) string {
+	o[prefix]++
+	return prefix + strconv.Itoa(o[prefix])
 }
